@@ -90,7 +90,7 @@ impl Case {
         Case {
             chunk: f.num("c"),
             fault: f.num("f") == 1,
-            pre: unhex(f.get("pre")),
+            pre: data_field(f.get("pre")),
             pre_consumed: f.num("m"),
             data: data_field(f.get("d")),
             data_spec: if f.get("d").starts_with('g') { Some(f.get("d").to_string()) } else { None },
